@@ -395,7 +395,7 @@ fn check_parse(text: &str) -> Option<Violation> {
 
 /// pieces of string literal source text: escapes of every form, and the characters that may follow them
 const LITERAL_PIECES: &[&str] = &[
-    "\\0", "\\9", "\\10", "\\065", "\\255", "\\010", "\\001", "\\000", "\\09", "\\x41", "\\x0a", "\\xFF", "\\u{41}", "\\u{7FF}", "\\u{10FFFF}", "\\u{0}", "\\u{D800}", "\\u{DFFF}", "\\u{110000}", "\\u{FFFFFFFFF}", "\\u{}", "\\u{g}", "\\x4", "\\256", "\\q", "\\z ", "\\z\n  ", "\\\n", "\\n", "\\r", "\\t",
+    "\\0", "\\9", "\\10", "\\065", "\\255", "\\010", "\\001", "\\000", "\\09", "\\x41", "\\x0a", "\\xFF", "\\u{41}", "\\u{7FF}", "\\u{10FFFF}", "\\u{0}", "\\u{D800}", "\\u{DFFF}", "\\u{110000}", "\\u{FFFFFFFFF}", "\\u{}", "\\u{g}", "\\x4", "\\256", "\\q", "\\z ", "\\z\n  ", "\\z\x0B ", "\\z\x0C\t", "\\z", "\\\n", "\\n", "\\r", "\\t",
     "\\a", "\\b", "\\f", "\\v", "\\\\", "\\\"", "\\'", "0", "1", "9", "a", "F", "f", " ", "{", "}", "x", "u", "z", "é",
 ];
 
@@ -497,6 +497,160 @@ fn check_string_parse(text: &str) -> Option<Violation> {
     }
 }
 
+/// Bug model of the parser dependency (full_moon 2.2.0, tokenizer/interpolated_strings.rs): after `\z` the tokenizer stays
+/// in its escape state, so the character after it is taken as escaped, which moves where it sees the holes of an
+/// interpolated string. Returns the source rewritten so that Luau's rules put the holes where full_moon puts them (a brace
+/// it does not see as a hole gets a backslash, a brace it wrongly sees as a hole loses its backslash).
+fn full_moon_reading(src: &str) -> String {
+    let b: Vec<char> = src.chars().collect();
+    let start = match b.iter().position(|c| *c == '`') {
+        Some(i) => i + 1,
+        None => return src.to_owned(),
+    };
+    // positions of the braces each tokenizer takes as the start of a hole (top level of the literal only)
+    let mut out: Vec<char> = b[..start].to_vec();
+    let (mut i, mut fm_escape) = (start, false);
+    // Luau: index up to which characters are already consumed by an escape
+    let mut luau_skip_to = start;
+    while i < b.len() {
+        let c = b[i];
+        let luau_plain = i >= luau_skip_to;
+        if luau_plain && c == '\\' {
+            // Luau consumes the escape as a whole
+            let mut j = i + 1;
+            if j < b.len() {
+                match b[j] {
+                    'u' if j + 1 < b.len() && b[j + 1] == '{' => j += 2,
+                    '\r' => {
+                        j += 1;
+                        if j < b.len() && b[j] == '\n' {
+                            j += 1;
+                        }
+                    }
+                    'z' => {
+                        j += 1;
+                        while j < b.len() && matches!(b[j], ' ' | '\t' | '\n' | '\r' | '\u{b}' | '\u{c}') {
+                            j += 1;
+                        }
+                    }
+                    _ => j += 1,
+                }
+            }
+            luau_skip_to = j;
+        }
+        let luau_hole = c == '{' && i >= luau_skip_to;
+        let luau_end = c == '`' && i >= luau_skip_to;
+        // full_moon
+        let (fm_hole, fm_end);
+        if fm_escape {
+            fm_escape = c == 'z';
+            fm_hole = false;
+            fm_end = false;
+        } else if c == '\\' {
+            if i + 1 < b.len() && b[i + 1] == 'u' {
+                // `\u{...}` is consumed as a whole by both
+                let mut j = i + 2;
+                if j < b.len() && b[j] == '{' {
+                    while j < b.len() && b[j] != '}' {
+                        j += 1;
+                    }
+                }
+                out.extend_from_slice(&b[i..j.min(b.len())]);
+                i = j;
+                luau_skip_to = luau_skip_to.max(j);
+                continue;
+            }
+            fm_escape = true;
+            fm_hole = false;
+            fm_end = false;
+        } else {
+            fm_hole = c == '{';
+            fm_end = c == '`';
+        }
+        if luau_hole && !fm_hole {
+            out.push('\\');
+            out.push(c);
+            i += 1;
+        } else if fm_hole && !luau_hole {
+            // drop the backslash Luau saw before it
+            if out.last() == Some(&'\\') {
+                out.pop();
+            }
+            out.push(c);
+            i += 1;
+        } else if luau_hole {
+            // both open a hole: copy it up to the matching brace
+            let mut depth = 0;
+            while i < b.len() {
+                out.push(b[i]);
+                if b[i] == '{' {
+                    depth += 1;
+                } else if b[i] == '}' {
+                    depth -= 1;
+                    if depth == 0 {
+                        i += 1;
+                        break;
+                    }
+                }
+                i += 1;
+            }
+            luau_skip_to = i;
+        } else if luau_end != fm_end {
+            // the literal ends at different places: not modelled
+            return src.to_owned();
+        } else {
+            out.push(c);
+            i += 1;
+            if luau_end {
+                out.extend_from_slice(&b[i..]);
+                break;
+            }
+        }
+    }
+    out.into_iter().collect()
+}
+
+/// an interpolated string with holes, parsed without tokens and written by every generator, reads back as the same
+/// sequence of string parts and values
+fn check_interpolated_roundtrip(text: &str) -> Vec<Violation> {
+    let src = format!("return {}", text);
+    let toks = |t: &str| -> Option<Vec<Tok>> { lex(t.as_bytes(), Mode::Luau).ok().map(|l| l.tokens.into_iter().map(|t| t.tok).collect()) };
+    let expected = match toks(&src) {
+        Some(t) => t,
+        None => return vec![],
+    };
+    let mut out = Vec::new();
+    for with_tokens in [false, true] {
+        let block = match dl::parse(&src, with_tokens) {
+            Ok(b) => b,
+            Err(e) if e.starts_with("PANIC") => return vec![Violation { finding: None, summary: format!("{} on literal {}", e, text), replay: json!({"kind": "interpolated", "text": text}) }],
+            Err(_) => return vec![],
+        };
+        for gen in [Gen::Dense(80), Gen::Readable(80), Gen::Retain] {
+            let problem = match dl::generate(&block, &src, gen) {
+                Err(e) => Some(e),
+                Ok(written) => match toks(&written) {
+                    None => Some(format!("written as {:?}, which does not lex", written)),
+                    Some(t) if t != expected => Some(format!("written as {:?}, which reads differently", written)),
+                    _ => None,
+                },
+            };
+            if let Some(problem) = problem {
+                // full_moon keeps escaping after `\z`: a brace directly after it is swallowed (known finding, attributed
+                // only when the output reads exactly like the source with that brace escaped)
+                let model = full_moon_reading(&src);
+                let matches_model = model != src && src.contains("\\z") && dl::generate(&block, &src, gen).ok().and_then(|w| toks(&w)).is_some_and(|t| Some(t) == toks(&model));
+                out.push(Violation {
+                    finding: if matches_model { Some("z-escape-directly-before-an-interpolation-brace-swallows-the-brace".to_owned()) } else { None },
+                    summary: format!("interpolated string {:?} parsed {} tokens and written by {}: {}", text, if with_tokens { "with" } else { "without" }, gen.name(), problem),
+                    replay: json!({"kind": "interpolated", "text": text}),
+                });
+            }
+        }
+    }
+    out
+}
+
 pub fn run(tier: Tier) -> Report {
     let mut report = Report::new("C13", "exploration", tier);
     report.rule = "strings: ALL byte strings of length <= 2 (65 793), all strings of length 3 (4 in thorough) over 23 class bytes, the long-bracket \
@@ -506,7 +660,7 @@ pub fn run(tier: Tier) -> Report {
         5.1 rules. numbers: +-0, inf, nan, all 2098 powers of two, all powers of ten and 1.5/9.99..e(k), each +-1 ulp (2 in thorough), 2^53 neighbours, \
         hard cases; via Expression::from(f64) and DecimalNumber with recorded exponents -3..+3 and both cases; read back by luaref (bit-exact). parsing: \
         every text over `0-9 _ . e E x X b B a F + -` up to 5 (6) characters that luaref lexes as one Luau number is parsed by darklua and \
-        compute_value() compared bit-exactly; every sequence of up to 2 (3) pieces from 51 string-literal pieces (every escape form, digits and hex digits that may follow one, braces) in double quotes, single quotes and backticks is parsed by darklua and its value compared with the luaref lexer's. non-trivial = the writer had to escape or choose a quoting form / the number needs more than 3 digits"
+        compute_value() compared bit-exactly; every sequence of up to 2 (3) pieces from 54 string-literal pieces (every escape form, digits and hex digits that may follow one, braces) in double quotes, single quotes and backticks is parsed by darklua and its value compared with the luaref lexer's; every backtick body is also placed before, after and around holes, parsed with and without tokens and written by the three generators: the output must lex to the same parts. non-trivial = the writer had to escape or choose a quoting form / the number needs more than 3 digits"
         .to_owned();
     report.assumptions = vec![
         "the luaref lexer implements Lua 5.1 and Luau escape and numeral rules (manual §2.1; Luau lexer)".to_owned(),
@@ -553,6 +707,21 @@ pub fn run(tier: Tier) -> Report {
         report.violations.push(v);
     }
     report.set("string_literal_texts", lits.len() as u64);
+    // the same bodies around one or two holes
+    let mut holes: Vec<String> = Vec::new();
+    for t in &lits {
+        if let Some(body) = t.strip_prefix('`').and_then(|r| r.strip_suffix('`')) {
+            holes.push(format!("`{}{{x}}`", body));
+            holes.push(format!("`{{x}}{}`", body));
+            holes.push(format!("`{}{{x}}{}{{ {{}} }}`", body, body));
+        }
+    }
+    let res: Vec<Vec<Violation>> = holes.par_iter().map(|t| check_interpolated_roundtrip(t)).collect();
+    report.evaluations += 6 * holes.len() as u64;
+    for v in res.into_iter().flatten() {
+        report.violations.push(v);
+    }
+    report.set("interpolated_literal_texts", holes.len() as u64);
     for idx in [11usize, 300, 70000 % strs.len(), strs.len() - 5000, strs.len() - 40] {
         let value = &strs[idx];
         let texts: Vec<String> = shapes(value)
